@@ -309,6 +309,31 @@ pub fn run(cfg: &RunCfg) -> CheckReport {
     if rep.has_violation() {
         return rep;
     }
+    {
+        let wide = super::large::wide();
+        let mut work = vec![];
+        for i in &wide {
+            for &a in ALGS.iter() {
+                if a != Algorithm::Lcs || super::large::lcs_affordable(i) {
+                    work.push((a, i));
+                }
+            }
+        }
+        let ex = explore(cfg, work.len(), |shard, acc| {
+            let (alg, inp) = work[shard];
+            match check_large(alg, inp) {
+                Ok((nt, tr, fp)) => {
+                    acc.sample(super::large::case_json(alg, inp, cfg.seed));
+                    acc.ok(nt, tr, fp);
+                }
+                Err(e) => acc.violation(|| (super::large::case_json(alg, inp, cfg.seed), format!("{}: {}", inp.name, e))),
+            }
+        });
+        rep.part("huge-more-than-2^16-distinct-tokens", json!({"inputs": wide.iter().map(|i| i.name.clone()).collect::<Vec<_>>()}), ex);
+        if rep.has_violation() {
+            return rep;
+        }
+    }
     // long texts through every constructor: ops == direct diff of the token slices
     let pairs = super::richtext::long_pairs(&super::large::all(cfg.tier, cfg.seed), cfg.tier.pick(130, 300));
     let ex = explore(cfg, pairs.len(), |shard, acc| {
